@@ -86,7 +86,13 @@ def impl_init():
             ps = None
         else:
             try:
-                k = parse_packet(U.scapy_from_spec(c["spec"]))
+                from harness.props import c16
+                sp = c["spec"]
+                if c16.simple_opts(sp.get("opts", "")) and not sp.get("ipopts") and len(sp.get("opts", "")) % 3 == 0:
+                    # the caller's ONE Scapy object, parsed before while its sequence number was another one (zero <-> non-zero), then updated in place
+                    k = parse_packet(U.scapy_reused_seq(sp, parse_packet))
+                else:
+                    k = parse_packet(U.scapy_from_spec(sp))
             except PacketError:
                 return {"skip": "PacketError"}
             ps = TCPPacketSignature.from_packet(k)
